@@ -881,6 +881,17 @@ def cli_option_rule(ctx: T.Any, rule: str, names: T.Iterable[str]) -> None:
                       f"`is_flag={unparse(f_) if f_ is not None else None}`", loc=f"{mod.relpath}:{c.lineno}")
 
 
+def calls_toward(ctx: T.Any, fn: FunctionInfo, target_fq: str) -> T.List[T.Tuple[ast.Call, FunctionInfo]]:
+    """Calls in `fn` whose callee is `target_fq` or a function of the program from which it is reachable: the step of a
+    call chain, whether or not an intermediate helper (cli._try_update) exists."""
+    out: T.List[T.Tuple[ast.Call, FunctionInfo]] = []
+    for call, t in ctx.prog.calls_in(fn):
+        if t.kind == "func" and t.fn is not None and t.fn.fq != fn.fq:
+            if t.fn.fq == target_fq or target_fq in ctx.effects.reachable_functions([t.fn.fq]):
+                out.append((call, t.fn))
+    return out
+
+
 def errors_are_fatal(ctx: T.Any, rule: str, fq: str, floor: int) -> None:
     """In the validation helper `fq`, every `logger.error(...)` is followed, on every path, by a process exit or a raise:
     the function's normal return is not reachable from the report.  (Non-zero exit codes are decided by the exit-code
